@@ -58,7 +58,11 @@ class HarnessA(Harness):
                 # ---- read_as_int
                 raw = lib.RawPacketData(buf)
                 raw.pos = p
-                v = raw.read_as_int(n)
+                try:
+                    v = raw.read_as_int(n)
+                except Exception as e:     # noqa: BLE001 - an in-range read must not raise
+                    return result("exc:" + type(e).__name__, [(f"int read p={p} n={n} raises nothing", False)], observe={},
+                                  inputs={"buf": buf, "reads": [[p, n]], "only": "int"})
                 vt = v.t if isinstance(v, bv.SymInt) else z3.BitVecVal(v, W)
                 if n == 0:
                     obl.append((f"int value p={p} n=0", vt == 0))
@@ -70,7 +74,11 @@ class HarnessA(Harness):
                 # ---- read_as_bytes
                 raw2 = lib.RawPacketData(buf)
                 raw2.pos = p
-                b = raw2.read_as_bytes(n)
+                try:
+                    b = raw2.read_as_bytes(n)
+                except Exception as e:     # noqa: BLE001
+                    return result("exc:" + type(e).__name__, [(f"bytes read p={p} n={n} raises nothing", False)], observe={},
+                                  inputs={"buf": buf, "reads": [[p, n]], "only": "bytes"})
                 nb = (n + 7) // 8
                 ok_len = isinstance(b, bv.SymBytes) and len(b) == nb
                 obl.append((f"bytes length p={p} n={n}", bool(ok_len)))
@@ -103,13 +111,16 @@ class HarnessB(Harness):
         # the whole buffer as one word; bit k (0 = MSB of byte 0) is Extract at 8L-1-k
         Bw = buf.word(W)
         obl = []
+        try:
+            out = raw.read_as_bytes(ns) if as_bytes else raw.read_as_int(ns)
+        except Exception as e:     # noqa: BLE001 - an in-range read must not raise
+            return result("exc:" + type(e).__name__, [("in-range read raises nothing", False)], observe={},
+                          inputs={"buf": buf, "p": bv.SymInt(p), "n": bv.SymInt(n), "as_bytes": as_bytes})
         if as_bytes:
-            out = raw.read_as_bytes(ns)
             nbytes = len(out)
             obl.append(("bytes length", (n + 7) / 8 == nbytes))
             vt = out.word(W)
         else:
-            out = raw.read_as_int(ns)
             vt = out.t if isinstance(out, bv.SymInt) else z3.BitVecVal(out, W)
         # per-bit oracle with symbolic indices: result bit i (from the LSB) is buffer bit p+n-1-i for i < n, else 0
         one = z3.BitVecVal(1, W)
@@ -169,11 +180,18 @@ def concrete(req):
         for p, n in i["reads"]:
             r = RawPacketData(buf)
             r.pos = p
-            ints.append(r.read_as_int(n))
+            try:
+                ints.append(r.read_as_int(n))
+            except Exception as e:   # noqa: BLE001
+                ints.append("exc:" + type(e).__name__)
             r = RawPacketData(buf)
             r.pos = p
-            bs.append(r.read_as_bytes(n))
-        return {"cls": "ok", "ints": enc_concrete(ints), "bytes": enc_concrete(bs)}
+            try:
+                bs.append(r.read_as_bytes(n))
+            except Exception as e:   # noqa: BLE001
+                bs.append("exc:" + type(e).__name__)
+        cls = next((x for x in ints + bs if isinstance(x, str) and x.startswith("exc:")), "ok")
+        return {"cls": cls, "ints": enc_concrete(ints), "bytes": enc_concrete(bs)}
     r = RawPacketData(buf)
     r.pos = i["p"]
     try:
